@@ -16,3 +16,19 @@ Theorem slice_slow_eq_ref :
     slice_by_line_run cfg M (fun _ => Continue) s = RunOk (grep_ref cfg (m_is_match M) s).
 Proof. exact slice_slow_eq_ref_proof. Qed.
 Print Assumptions slice_slow_eq_ref.
+
+(* 2. the same for the fast (candidate based) line path, non-inverted search: for every matcher
+      whose find_by_line_fast obeys its contract on whole-line buffers ("the line found is the
+      first remaining line the pattern matches; none means no remaining line matches" — this is
+      what property C11/C01 establish for the regex matcher), whichever of the two paths
+      is_line_by_line_fast selects, including the switch to the slow path once stop-on-nonmatch
+      has seen a match. *)
+From RG Require Import Proofs.FastPathProofs.
+Theorem slice_eq_ref_noninvert :
+  forall (cfg : config) (M : matcher),
+    c_binary cfg = BNone ->
+    forall s : bytes,
+    find_spec cfg M s -> c_invert cfg = false -> c_passthru cfg = false ->
+    slice_by_line_run cfg M (fun _ => Continue) s = RunOk (grep_ref cfg (m_is_match M) s).
+Proof. exact slice_eq_ref_noninvert_proof. Qed.
+Print Assumptions slice_eq_ref_noninvert.
